@@ -330,6 +330,41 @@ theorem listener_filter (E : Env) (n : Net) (m : BusMsg) :
   · intro h
     simp [step, receive, h.1, h.2]
 
+/-- what `MessageListener` hands on or decides by: id, data, timestamp, error flag, remote flag -/
+def SameFrame (m m' : BusMsg) : Prop :=
+  m.id = m'.id ∧ m.data = m'.data ∧ m.ts = m'.ts ∧ m.isError = m'.isError ∧ m.isRemote = m'.isRemote
+
+/-- **Only the error and the remote flag suppress dispatch.**  Two received messages that agree in
+    id, data, timestamp, error flag and remote flag are treated alike — same callbacks, same
+    arguments, same scanner update — whatever `is_rx` (the echo of an own transmission),
+    `is_extended_id`, `is_fd`, `bitrate_switch`, `error_state_indicator`, `dlc` and `channel` say;
+    so a data frame with any such attributes is dispatched exactly like the plain
+    `notify(id, data, timestamp)` (exceptions of callbacks not escaping). -/
+theorem listener_flags_irrelevant (E : Env) (n : Net) (m m' : BusMsg) (h : SameFrame m m') :
+    step E n (.receive m) = step E n (.receive m') ∧
+    ((m.isError = false ∧ m.isRemote = false) →
+      (step E n (.receive m)).1 = (step E n (.notify ⟨m'.id, m'.data, m'.ts⟩)).1 ∧
+      (step E n (.receive m)).2.calls = (step E n (.notify ⟨m'.id, m'.data, m'.ts⟩)).2.calls) := by
+  obtain ⟨h1, h2, h3, h4, h5⟩ := h
+  constructor
+  · simp only [step, receive, h1, h2, h3, h4, h5]
+  · intro hd
+    rw [← h1, ← h2, ← h3]
+    simp [step, receive, hd.1, hd.2]
+
+/-- the echo of an own transmission on a flexible-data-rate bus, with a dlc that is not the data
+    length, reaches the subscribed callback like any data frame -/
+example :
+    let E : Env := ⟨fun _ => 1, fun _ => false, fun _ => false⟩
+    let n := (run E init [.subscribe 0x123 (.user 0)]).1
+    SameFrame { id := 0x123, data := [4, 5, 6], ts := 11, isError := false, isRemote := false,
+                isRx := false, isFd := true, brs := true, dlc := 15, channel := 2 }
+              { id := 0x123, data := [4, 5, 6], ts := 11, isError := false, isRemote := false } ∧
+    (step E n (.receive { id := 0x123, data := [4, 5, 6], ts := 11, isError := false,
+                          isRemote := false, isRx := false, isFd := true, brs := true, dlc := 15,
+                          channel := 2 })).2.calls = [⟨.user 0, 0x123, [4, 5, 6], 11⟩] := by
+  exact ⟨⟨rfl, rfl, rfl, rfl, rfl⟩, by decide⟩
+
 /-! ## T scanner, T scanner_in_network -/
 
 /-- the 2 048 11-bit ids, evaluated in the kernel (two halves to keep each fact small) -/
@@ -511,6 +546,17 @@ theorem addSdo_scan (E : Env) (n : Net) (o tx : Nat) : (addSdo E n o tx).1.scan 
   unfold addSdo
   split <;> rfl
 
+/-- the mapping mix-ins do not touch the scanner -/
+theorem composite_scan (E : Env) (n : Net) (op : Op) (hop : ¬ Basic op) :
+    (step E n op).1.scan = n.scan := by
+  refine step_lift E (fun m => m.scan = n.scan)
+    (fun x => (∃ o, x = .setNode o) ∨ ∃ k, x = .delNode k) ?_ n op ?_ rfl
+  · intro m x _ hx hm
+    rcases hx with ⟨o, rfl⟩ | ⟨k, rfl⟩
+    · simp only [step]; rw [setNode_scan]; exact hm
+    · simp only [step]; rw [delNode_scan]; exact hm
+  · exact fun x hx => itemOps_composite E n op x hop hx
+
 theorem shown_scan (E : Env) (ops : List Op) (n : Net) (acc : List Nat)
     (h : n.scan = scanFeed [] acc) :
     (run E n ops).1.scan = scanFeed [] (shown E n ops acc) := by
@@ -544,6 +590,11 @@ theorem shown_scan (E : Env) (ops : List Op) (n : Net) (acc : List Nat)
         · rw [scanFeed_append, ← h]; rfl
         · exact h
     | scanReset => rfl
+    | popNode nid d => rw [composite_scan E n _ (by simp [Basic])]; exact h
+    | popItem => rw [composite_scan E n _ (by simp [Basic])]; exact h
+    | clear => rw [composite_scan E n _ (by simp [Basic])]; exact h
+    | update os => rw [composite_scan E n _ (by simp [Basic])]; exact h
+    | setDefault o => rw [composite_scan E n _ (by simp [Basic])]; exact h
 
 /-- **Scanner inside the network.**  After any history on a fresh network, `scanner.nodes` is
     the spec's list for the CAN ids of the frames dispatched (completely) since the last
@@ -563,10 +614,15 @@ theorem silent_of_unregistered (E : Env) (n : Net) (o : Nat) (hI : Inv E n)
     (hu : n.nodes (E.nid o) ≠ some o) : Silent o n :=
   fun id h hm => hu (hI.owned id o h hm).1
 
-theorem unregistered_step (E : Env) (n : Net) (op : Op) (o : Nat)
+theorem unregistered_step_basic (E : Env) (n : Net) (op : Op) (o : Nat) (hb : Basic op)
     (hu : n.nodes (E.nid o) ≠ some o) (hop : op ≠ .setNode o) :
     (step E n op).1.nodes (E.nid o) ≠ some o := by
   cases op with
+  | popNode nid d => simp only [Basic] at hb
+  | popItem => simp only [Basic] at hb
+  | clear => simp only [Basic] at hb
+  | update os => simp only [Basic] at hb
+  | setDefault o => simp only [Basic] at hb
   | subscribe id cb => exact hu
   | unsubscribe id cb =>
     simp only [step]
@@ -601,8 +657,26 @@ theorem unregistered_step (E : Env) (n : Net) (op : Op) (o : Nat)
   | receive m => simp only [step]; rw [(receive_frame E n m).2.1]; exact hu
   | scanReset => exact hu
 
+/-- an object that is not in the network stays out under every operation that does not name it
+    (`network[o.id] = o`, `add_node(o)`, `update` with `o` among the items, `setdefault(o.id, o)`) -/
+theorem unregistered_step (E : Env) (n : Net) (op : Op) (o : Nat)
+    (hu : n.nodes (E.nid o) ≠ some o) (hop : ¬ Adds o op) :
+    (step E n op).1.nodes (E.nid o) ≠ some o := by
+  refine step_lift E (fun m => m.nodes (E.nid o) ≠ some o) (fun x => x ≠ .setNode o)
+    (fun m x hb hx hm => unregistered_step_basic E m x o hb hm hx) n op ?_ hu
+  intro x hx
+  rcases itemOps_mem E n op x hx with ⟨rfl, _⟩ | ⟨o', rfl, ha⟩ | ⟨k, rfl⟩
+  · intro e
+    subst e
+    exact hop rfl
+  · intro e
+    cases e
+    exact hop ha
+  · intro e
+    cases e
+
 theorem unregistered_run (E : Env) (ops : List Op) (n : Net) (o : Nat)
-    (hu : n.nodes (E.nid o) ≠ some o) (hops : ∀ op ∈ ops, op ≠ .setNode o) :
+    (hu : n.nodes (E.nid o) ≠ some o) (hops : ∀ op ∈ ops, ¬ Adds o op) :
     (run E n ops).1.nodes (E.nid o) ≠ some o := by
   induction ops generalizing n with
   | nil => exact hu
@@ -611,23 +685,76 @@ theorem unregistered_run (E : Env) (ops : List Op) (n : Net) (o : Nat)
     exact ih _ (unregistered_step E n op o hu (hops op (by simp)))
       (fun x hx => hops x (by simp [hx]))
 
-/-- a successful delete / replacement takes the old object out of `Network.nodes` -/
-theorem unregistered_after (E : Env) (n : Net) (hI : Inv E n) (op : Op) (o nid : Nat)
-    (hreg : n.nodes nid = some o)
-    (hop : op = .delNode nid ∨ ∃ o', op = .setNode o' ∧ E.nid o' = nid ∧ o' ≠ o)
+/-- the ways the `Network` mapping takes the node object `o` filed under `nid` out of the network
+    in state `n`: `del network[nid]`, `pop(nid)`, `pop(nid, default)`, `popitem()` when `nid` is the
+    first id of the iteration, `clear()` (when it leaves `nid` behind — it swallows a `KeyError` —
+    the node is still in the network and nothing is claimed), `network[nid] = o'` / `add_node(o')`
+    for another object, `update` with another object for `nid` and without `o` -/
+def Removes (E : Env) (n : Net) (nid o : Nat) : Op → Prop
+  | .delNode k => k = nid
+  | .popNode k _ => k = nid
+  | .popItem => n.keys.head? = some nid
+  | .clear => nid ∉ (step E n .clear).1.keys
+  | .setNode o' => E.nid o' = nid ∧ o' ≠ o
+  | .update os => (∃ o' ∈ os, E.nid o' = nid) ∧ o ∉ os
+  | _ => False
+
+theorem delNode_unregisters (E : Env) (n : Net) (o nid : Nat)
+    (hok : (delNode E n nid).2 = true) : (delNode E n nid).1.nodes nid ≠ some o := by
+  rw [((delNode_table E n nid).1 hok).1]
+  simp [setNodes]
+
+/-- a removal / replacement that returns normally takes the old object out of `Network.nodes` -/
+theorem removal_unregisters (E : Env) (n : Net) (hI : Inv E n) (hK : KeysInv n) (op : Op)
+    (o nid : Nat) (hreg : n.nodes nid = some o) (hop : Removes E n nid o op)
     (hok : (step E n op).2.ok = true) :
     (step E n op).1.nodes (E.nid o) ≠ some o := by
   have hk : E.nid o = nid := hI.keyed nid o hreg
   rw [hk]
-  rcases hop with rfl | ⟨o', rfl, hn, hne⟩
-  · simp only [step, delNode, hreg] at hok ⊢
-    by_cases hd : (detach E n o).2 = true
-    · simp [hd, setNodes]
-    · simp [hd] at hok
-  · simp only [step, setNode, hn, hreg] at hok ⊢
-    by_cases hd : (detach E n o).2 = true
-    · simp [hd, setNodes, hne]
-    · simp [hd] at hok
+  cases op with
+  | subscribe id cb => simp only [Removes] at hop
+  | unsubscribe id cb => simp only [Removes] at hop
+  | addSdo o' tx => simp only [Removes] at hop
+  | notify f => simp only [Removes] at hop
+  | receive m => simp only [Removes] at hop
+  | scanReset => simp only [Removes] at hop
+  | setDefault o' => simp only [Removes] at hop
+  | delNode k =>
+    simp only [Removes] at hop
+    subst hop
+    exact delNode_unregisters E n o k hok
+  | popNode k d =>
+    simp only [Removes] at hop
+    subst hop
+    simp only [step, popNode, hreg] at hok ⊢
+    exact delNode_unregisters E n o k hok
+  | popItem =>
+    simp only [Removes] at hop
+    cases hks : n.keys with
+    | nil => simp [hks] at hop
+    | cons k r =>
+      simp only [hks, List.head?_cons, Option.some.injEq] at hop
+      subst hop
+      simp only [step, popItem, hks] at hok ⊢
+      exact delNode_unregisters E n o k hok
+  | clear =>
+    simp only [Removes] at hop
+    have hK' := keysInv_step E n .clear hK
+    intro e
+    exact hop ((hK'.mem nid).mpr (by rw [e]; simp))
+  | setNode o' =>
+    obtain ⟨hn, hne⟩ := hop
+    simp only [step] at hok ⊢
+    rw [((setNode_table E n o').1 hok).1, hn]
+    simp [setNodes, hne]
+  | update os =>
+    obtain ⟨hex, hno⟩ := hop
+    simp only [step] at hok ⊢
+    obtain ⟨o'', ho'', hn⟩ := updateNodes_nodes E os n nid hok hex
+    rw [hn]
+    intro e
+    simp only [Option.some.injEq] at e
+    exact hno (e ▸ ho'')
 
 theorem calls_subset (E : Env) (n : Net) (f : Frame) :
     ∀ c ∈ (notify E n f).2.calls, c.cb ∈ abs n.subs f.id := by
@@ -638,36 +765,20 @@ theorem calls_subset (E : Env) (n : Net) (f : Frame) :
   obtain ⟨cb, hcb, rfl⟩ := h
   exact hcb
 
-/-- **Removed or replaced nodes are silent.**  Take any history `pre` on a fresh network in which
-    nobody subscribed a node's bound method by hand, after which node object `o` is registered
-    under `nid`; then `del network[nid]`, or `network[nid] = o'` for another object `o'`, that
-    *returns normally*; then any further history `post` in which `o` is not added again (and
-    again nobody subscribes node methods by hand).  Then no frame — through `notify` or through
-    the bus listener — ever reaches any of the SDO, heartbeat, EMCY or NMT handlers of `o`. -/
-theorem removed_node_silent (E : Env) (pre post : List Op) (op : Op) (o nid : Nat)
-    (hpre : ∀ x ∈ pre, NoManualNodeSub x)
-    (hpost : ∀ x ∈ post, NoManualNodeSub x ∧ x ≠ .setNode o)
-    (hreg : (run E init pre).1.nodes nid = some o)
-    (hop : op = .delNode nid ∨ ∃ o', op = .setNode o' ∧ E.nid o' = nid ∧ o' ≠ o)
-    (hok : (step E (run E init pre).1 op).2.ok = true) :
-    (∀ f, ∀ c ∈ (step E (run E init (pre ++ op :: post)).1 (.notify f)).2.calls,
-        ∀ h, c.cb ≠ .node o h) ∧
-    (∀ m, ∀ c ∈ (step E (run E init (pre ++ op :: post)).1 (.receive m)).2.calls,
-        ∀ h, c.cb ≠ .node o h) := by
-  have hI0 : Inv E (run E init pre).1 := inv_run E pre init (inv_init E) hpre
-  have hopm : NoManualNodeSub op := by
-    rcases hop with rfl | ⟨o', rfl, _, _⟩ <;> simp [NoManualNodeSub]
-  have hI1 : Inv E (step E (run E init pre).1 op).1 := inv_step E _ op hI0 hopm
-  have hu1 := unregistered_after E _ hI0 op o nid hreg hop hok
-  have hst : (run E init (pre ++ op :: post)).1 = (run E (step E (run E init pre).1 op).1 post).1 := by
-    rw [run_app]; rfl
-  have hI2 : Inv E (run E init (pre ++ op :: post)).1 := by
-    rw [hst]; exact inv_run E post _ hI1 (fun x hx => (hpost x hx).1)
-  have hu2 : (run E init (pre ++ op :: post)).1.nodes (E.nid o) ≠ some o := by
-    rw [hst]; exact unregistered_run E post _ o hu1 (fun x hx => (hpost x hx).2)
-  have hs := silent_of_unregistered E _ o hI2 hu2
-  have key : ∀ f, ∀ c ∈ (notify E (run E init (pre ++ op :: post)).1 f).2.calls,
-      ∀ h, c.cb ≠ .node o h := by
+/-- **A node that is not in the network hears nothing.**  After *any* history on a fresh network —
+    subscribe, unsubscribe, `network[id] = node`, `add_node`, `del`, `pop`, `popitem`, `clear`,
+    `update`, `setdefault`, `add_sdo`, frames — in which nobody subscribed a node's bound method by
+    hand: for every node object `o` that is not what the network holds under `o`'s node id
+    (`network.get(o.id) is not o`: never added, removed, or replaced), no frame — through `notify`
+    or through the bus listener — reaches any of the SDO, heartbeat, EMCY or NMT handlers of `o`. -/
+theorem absent_node_silent (E : Env) (hist : List Op) (o : Nat)
+    (hh : ∀ x ∈ hist, NoManualNodeSub x)
+    (habs : (run E init hist).1.nodes (E.nid o) ≠ some o) :
+    (∀ f, ∀ c ∈ (step E (run E init hist).1 (.notify f)).2.calls, ∀ h, c.cb ≠ .node o h) ∧
+    (∀ m, ∀ c ∈ (step E (run E init hist).1 (.receive m)).2.calls, ∀ h, c.cb ≠ .node o h) := by
+  have hI : Inv E (run E init hist).1 := inv_run E hist init (inv_init E) hh
+  have hs := silent_of_unregistered E _ o hI habs
+  have key : ∀ f, ∀ c ∈ (notify E (run E init hist).1 f).2.calls, ∀ h, c.cb ≠ .node o h := by
     intro f c hc h e
     exact hs f.id h (e ▸ calls_subset E _ f c hc)
   refine ⟨key, ?_⟩
@@ -676,6 +787,117 @@ theorem removed_node_silent (E : Env) (pre post : List Op) (op : Op) (o nid : Na
   split at hc
   · simp at hc
   · exact key _ c hc
+
+/-- **The node table is coherent.**  After any history, the iteration over the network lists every
+    node id that holds a node exactly once (`len`, `in`, `keys()` agree with `network[id]`). -/
+theorem node_table_coherent (E : Env) (hist : List Op) :
+    (run E init hist).1.keys.Nodup ∧
+    (∀ nid, nid ∈ (run E init hist).1.keys ↔ (run E init hist).1.nodes nid ≠ none) :=
+  let h := keysInv_run E hist init keysInv_init
+  ⟨h.nodup, h.mem⟩
+
+/-- **Removed or replaced nodes are silent.**  Take any history `pre` on a fresh network in which
+    nobody subscribed a node's bound method by hand, after which node object `o` is registered
+    under `nid`; then *any* of the ways the mapping API removes or replaces it (`Removes`:
+    `del network[nid]`, `pop(nid)`, `pop(nid, default)`, `popitem()` with `nid` first in the
+    iteration, `clear()` after which `nid` is no longer listed, `network[nid] = o'` / `add_node(o')`
+    / `update` with another object for `nid`) that *returns normally*; then any further history
+    `post` in which `o` is not added again (and again nobody subscribes node methods by hand).
+    Then no frame — through `notify` or through the bus listener — ever reaches any of the SDO,
+    heartbeat, EMCY or NMT handlers of `o`. -/
+theorem removed_node_silent (E : Env) (pre post : List Op) (op : Op) (o nid : Nat)
+    (hpre : ∀ x ∈ pre, NoManualNodeSub x)
+    (hpost : ∀ x ∈ post, NoManualNodeSub x ∧ ¬ Adds o x)
+    (hreg : (run E init pre).1.nodes nid = some o)
+    (hop : Removes E (run E init pre).1 nid o op)
+    (hok : (step E (run E init pre).1 op).2.ok = true) :
+    (∀ f, ∀ c ∈ (step E (run E init (pre ++ op :: post)).1 (.notify f)).2.calls,
+        ∀ h, c.cb ≠ .node o h) ∧
+    (∀ m, ∀ c ∈ (step E (run E init (pre ++ op :: post)).1 (.receive m)).2.calls,
+        ∀ h, c.cb ≠ .node o h) := by
+  have hI0 : Inv E (run E init pre).1 := inv_run E pre init (inv_init E) hpre
+  have hK0 : KeysInv (run E init pre).1 := keysInv_run E pre init keysInv_init
+  have hopm : NoManualNodeSub op := by
+    cases op <;> first | trivial | (simp only [Removes] at hop)
+  have hu1 := removal_unregisters E _ hI0 hK0 op o nid hreg hop hok
+  have hst : (run E init (pre ++ op :: post)).1 = (run E (step E (run E init pre).1 op).1 post).1 := by
+    rw [run_app]; rfl
+  apply absent_node_silent
+  · intro x hx
+    rcases List.mem_append.mp hx with hx | hx
+    · exact hpre x hx
+    · rcases List.mem_cons.mp hx with rfl | hx
+      · exact hopm
+      · exact (hpost x hx).1
+  · rw [hst]
+    exact unregistered_run E post _ o hu1 (fun x hx => (hpost x hx).2)
+
+/-- `clear()` needs no more than one `popitem()` per node and one to find the network empty -/
+theorem clear_fuel (E : Env) (n : Net) (extra : Nat) :
+    clearLoop E (n.keys.length + 1 + extra) n = clearNodes E n := by
+  have key : ∀ (len : Nat) (n : Net), n.keys.length = len → ∀ f1 f2, len < f1 → len < f2 →
+      clearLoop E f1 n = clearLoop E f2 n := by
+    intro len
+    induction len with
+    | zero =>
+      intro n hl f1 f2 h1 h2
+      have hk : n.keys = [] := List.length_eq_zero_iff.mp hl
+      obtain ⟨a, rfl⟩ : ∃ a, f1 = a + 1 := ⟨f1 - 1, by omega⟩
+      obtain ⟨b, rfl⟩ : ∃ b, f2 = b + 1 := ⟨f2 - 1, by omega⟩
+      simp [clearLoop, popItem, hk]
+    | succ len ih =>
+      intro n hl f1 f2 h1 h2
+      obtain ⟨a, rfl⟩ : ∃ a, f1 = a + 1 := ⟨f1 - 1, by omega⟩
+      obtain ⟨b, rfl⟩ : ∃ b, f2 = b + 1 := ⟨f2 - 1, by omega⟩
+      cases hk : n.keys with
+      | nil => simp [hk] at hl
+      | cons k r =>
+        by_cases hok : (delNode E n k).2 = true
+        · simp only [clearLoop, popItem, hk, hok, if_true]
+          apply ih
+          · rw [((delNode_table E n k).1 hok).2.1, hk]
+            simp only [List.erase_cons_head]
+            simpa [hk] using hl
+          · omega
+          · omega
+        · simp [clearLoop, popItem, hk, hok]
+  exact key _ n rfl _ _ (by omega) (by omega)
+
+/-- `clear()` = `popitem()` until the network is empty: it ends with an empty network unless one
+    of its `del network[k]` raised (and then stops right there) -/
+theorem clear_stops_only_on_failure (E : Env) (n : Net) :
+    (clearNodes E n).1.keys = [] ∨
+    ∃ m k, m.keys.head? = some k ∧ (delNode E m k).2 = false ∧
+      (clearNodes E n).1 = (delNode E m k).1 := by
+  have key : ∀ (len : Nat) (n : Net), n.keys.length = len → ∀ f, len < f →
+      (clearLoop E f n).1.keys = [] ∨
+      ∃ m k, m.keys.head? = some k ∧ (delNode E m k).2 = false ∧
+        (clearLoop E f n).1 = (delNode E m k).1 := by
+    intro len
+    induction len with
+    | zero =>
+      intro n hl f h
+      have hk : n.keys = [] := List.length_eq_zero_iff.mp hl
+      obtain ⟨a, rfl⟩ : ∃ a, f = a + 1 := ⟨f - 1, by omega⟩
+      left
+      simp [clearLoop, popItem, hk]
+    | succ len ih =>
+      intro n hl f h
+      obtain ⟨a, rfl⟩ : ∃ a, f = a + 1 := ⟨f - 1, by omega⟩
+      cases hk : n.keys with
+      | nil => simp [hk] at hl
+      | cons k r =>
+        by_cases hok : (delNode E n k).2 = true
+        · simp only [clearLoop, popItem, hk, hok, if_true]
+          apply ih
+          · rw [((delNode_table E n k).1 hok).2.1, hk]
+            simp only [List.erase_cons_head]
+            simpa [hk] using hl
+          · omega
+        · right
+          refine ⟨n, k, by simp [hk], by simpa using hok, ?_⟩
+          simp [clearLoop, popItem, hk, hok]
+  exact key _ n rfl _ (by omega)
 
 /-- the hypotheses are satisfiable: a remote node is added, replaced by a local one, and its
     heartbeat handler is gone while the user's callback still sees the frame -/
@@ -698,4 +920,41 @@ example :
     (step E (run E init pre).1 (.delNode 1)).2.ok = false ∧
     (step E (run E init (pre ++ [.delNode 1])).1 (.notify ⟨0x701, [5], 2⟩)).2.calls.map (·.cb) =
       [.node 0 .heartbeat] := by decide
+
+/-- `clear()`: two nodes (remote 5, local 6) leave at once; `popitem()` takes the first of the
+    iteration; `update` replaces; the hypotheses of `removed_node_silent` hold for each -/
+example :
+    let E : Env := ⟨fun o => if o == 1 then 6 else 5, fun o => o == 1 || o == 2, fun _ => false⟩
+    let pre : List Op := [.subscribe 0x705 (.user 0), .setNode 0, .setNode 1]
+    let s := (run E init pre).1
+    s.nodes 5 = some 0 ∧ s.keys = [5, 6] ∧
+    Removes E s 5 0 .clear ∧ Removes E s 6 1 .clear ∧ (step E s .clear).2.ok = true ∧
+    Removes E s 5 0 .popItem ∧ (step E s .popItem).2.ok = true ∧
+    Removes E s 5 0 (.popNode 5 true) ∧ Removes E s 5 0 (.update [1, 2]) ∧
+    (step E s (.update [1, 2])).2.ok = true ∧
+    (step E s (.notify ⟨0x705, [5], 1⟩)).2.calls.map (·.cb) = [.user 0, .node 0 .heartbeat] ∧
+    (step E (run E init (pre ++ [.clear])).1 (.notify ⟨0x705, [5], 2⟩)).2.calls.map (·.cb) =
+      [.user 0] ∧
+    (step E (run E init (pre ++ [.clear])).1 (.notify ⟨0x606, [0x40], 3⟩)).2.calls = [] ∧
+    (step E (run E init (pre ++ [.update [1, 2]])).1 (.notify ⟨0x605, [0x40], 3⟩)).2.calls.map
+      (·.cb) = [.node 2 .sdoRequest] := by
+  refine ⟨by decide, by decide, ?_, ?_, by decide, ?_, by decide, rfl, ?_, by decide,
+    by decide, by decide, by decide, by decide⟩
+  · show (5 : Nat) ∉ _
+    decide
+  · show (6 : Nat) ∉ _
+    decide
+  · show List.head? _ = some 5
+    decide
+  · exact ⟨⟨2, by decide, by decide⟩, by decide⟩
+
+/-- why `clear()` is only claimed for the ids it no longer lists: it swallows the `KeyError` of a
+    removal that stopped half-way (the user had dropped *all* callbacks of CAN id 0) and returns
+    normally with the node still in the network -/
+example :
+    let E : Env := ⟨fun _ => 5, fun _ => false, fun _ => false⟩
+    let pre : List Op := [.setNode 0, .unsubscribe 0 none]
+    (step E (run E init pre).1 .clear).2.ok = true ∧
+    (step E (run E init pre).1 .clear).1.keys = [5] ∧
+    (step E (run E init pre).1 .clear).1.nodes 5 = some 0 := by decide
 end Canopen.C10
